@@ -38,8 +38,9 @@ CLAIMED = {
         "lookup, block capacity and compressor obeying the round-trip law, the single-threaded path (parse_body byte machine -> "
         "VcdEncoder -> wavemem Encoder -> Reader::load_signal -> iter_changes) reports for a bit-vector variable of any width exactly "
         "what the parser's events record: index into the accepted time table, least state kind, characters, equal neighbours once "
-        "(on top of storage_transparent, C04). Not covered by the theorem: that the byte machine's events are the tokens of the text "
-        "(properties of the machine are pinned under C15), reals, strings, the multi-threaded path (C03). Those, and the tie of the "
+        "(on top of storage_transparent, C04); vcd_stream_transparent_rs is the same for real and string variables. Not covered by the "
+        "theorems: that the byte machine's events are the tokens of the text (properties of the machine are pinned under C15) and the "
+        "multi-threaded path (C03). Those, and the tie of the "
         "model to vcd.rs/wavemem.rs, are decided by the correspondence run: the extracted model against the real loader on generated "
         "files, plus the oracle computed from the abstract history; exhaustive sweeps over every byte as value character and every "
         "(width, written length, leading character).",
@@ -118,8 +119,10 @@ CLAIMED = {
         "HierarchyBuilder calls (add_scope with/without flatten, re-opening of same-named scopes, add_var, pop_scope) the arrays and "
         "their child/next/parent links form a forest: items() and Scope::items() return children lists in which every variable and "
         "scope occurs exactly once, parent links agree with the lists, parents precede children, sibling scopes have distinct names; "
-        "the scope stack's cached last children are exact (invariant hinv with add_var_inv, add_scope_inv, pop_scope_inv). Not covered "
-        "by the theorem: the pre-order walk function's fuel, full_name, lookup_*, the signal-reference table, unbalanced pops; these "
+        "the scope stack's cached last children are exact (invariant hinv with add_var_inv, add_scope_inv, pop_scope_inv). hierarchy_walk "
+        "(Proofs/NavProofs.v): the pre-order walk from the top-level items through each scope's items terminates within its fuel and "
+        "visits every variable and scope exactly once, full_name of every item is defined. Not covered by the theorems: that full_name "
+        "is the '.'-join along the walk, lookup_*, the signal-reference table, unbalanced pops; these "
         "and the tie to hierarchy.rs are decided by the correspondence run: the extracted model against the real builder (hook) on "
         "every op list of length <= 6 over a 6-symbol alphabet (55 986 lists, incl. unbalanced ones that must panic alike) and random "
         "lists to length 200; oracle: an independent rose-tree specification.",
